@@ -485,6 +485,8 @@ def run(ctx):
     check_arrival_source(ctx, 2)
     check_none_vs_zero(ctx, 3)
     check_refusals(ctx, 5)
+    from . import c01
+    c01.check_dag(Renumber(ctx, {10: 4}, drop=(9,)))      # the reader rebuilds each parent list through add_node, in the order the row names them
     c05.check_scaling(_R(ctx, {1: 6, 2: 6, 3: 6, 4: 6}), 6)
     c13.check_flush(ctx, 7, only=("batch_by_pipeline",))
 
